@@ -40,10 +40,38 @@ def dyadic_tree(rng):
     return fix(t), st
 
 
+def tie_tree(rng):
+    """a game with a payoff-irrelevant infoset: clipping its lopsided (tie-broken) strategy changes the profile but not
+    the regret - an exact tie, on which the unpruned profile must be printed"""
+    from ..gen import tree_stats
+    s = rng.choice([1.0, 2.0, 0.5])
+    v = float(rng.randint(-3, 3))
+
+    def T(x):
+        return {"t": f2b(x)}
+    mp = {"p": 1, "i": 11, "a": [[1, {"p": 2, "i": 12, "a": [[1, T(s)], [2, T(-s)]]}],
+                                 [2, {"p": 2, "i": 12, "a": [[1, T(-s)], [2, T(s)]]}]]}
+    k = rng.choice([3, 4])
+    free = {"p": rng.choice([1, 2]), "i": 13, "a": [[a, T(v)] for a in range(1, k + 1)]}
+    t = {"c": None, "o": [[f2b(1.0), mp], [f2b(1.0), free]]}
+    return t, tree_stats(t)
+
+
 def run(out, rng, tier, args):
     n = args.n or (N_THOROUGH if tier == "thorough" else N_QUICK)
     games = []
     for cid in range(n):
+        if rng.random() < 0.15:
+            t, st = tie_tree(rng)
+            fc = cc.json_case(cid, rng, t, st) if rng.random() < 0.5 else cc.gambit_case(cid, rng, t, st, interior=False)
+            fc.twin = None
+            o = cc.random_options(rng, full=True)
+            o.update({"par": 1, "preset": rng.choice(["lcfr", "cfr_plus", "dcfr", "dcfr_prune"]), "T": rng.choice([5, 10, 20]),
+                      "r": 0.0, "clip": rng.choice([0.2, 0.25, 0.3])})
+            fc.opts = o
+            fc.tie = True
+            games.append(fc)
+            continue
         if rng.random() < 0.35:
             t, st = dyadic_tree(rng)
             fj = cc.json_case(cid, rng, t, st)
@@ -70,6 +98,8 @@ def run(out, rng, tier, args):
         replay = {"file": fc.text, "format": fc.fmt, "options": a, "route": "file", "result": {k: base[k] for k in ("exit", "stderr", "cmd")},
                   "stdout": base["stdout"][:4000]}
         out.count("format_" + fc.fmt)
+        if getattr(fc, "tie", False):
+            out.count("exact_tie_family")
         out.count("preset_" + o["preset"])
         out.count("clip_%g" % o["clip"])
         if base["exit"] != 0:
@@ -82,7 +112,7 @@ def run(out, rng, tier, args):
         # (a) library and model, (e) clip choice
         for side, views in (("library", iv), ("model", mv)):
             v = views.get(fc.cid)
-            wants = (cc.expected_candidates(v, fc) if side == "library" else cc.model_candidates(v, fc)) if v else None
+            wants = (cc.expected_candidates(v, fc, exact=(o["par"] == 1)) if side == "library" else cc.model_candidates(v, fc)) if v else None
             if wants is None:
                 out.corr_breaks.append((fc.cid, "%s produced no result" % side, replay))
                 continue
